@@ -13,7 +13,7 @@ LEVEL = 'exploration'
 S = ps.ProcessState
 ACTS = [sched.PAUSE, sched.PLAY, sched.KILL, sched.RESUME, sched.FAIL, sched.CS_RAISE, sched.CANCEL]
 NACT = len(ACTS)
-NWHERE = 5  # gap + 4 listener notification kinds
+NWHERE = 7  # gap + 4 listener notification kinds + ENTERING_STATE / EXITING_STATE callbacks
 NPOS = 12
 
 
@@ -230,7 +230,7 @@ def shards(tier):
             else:
                 out.append(dict(name=f'sched2/prog={prog},a0={a0},gaps', harness='sched2',
                                 fixed=dict(prog=prog, a0=a0, w0=0, w1=0), budget_s=600))
-                if prog in (1, 2, 3, 8, 10):
+                if prog in (2, 3, 8, 10):
                     for w0 in range(1, NWHERE):
                         out.append(dict(name=f'sched2/prog={prog},a0={a0},w0={w0}', harness='sched2',
                                         fixed=dict(prog=prog, a0=a0, w0=w0), budget_s=1500))
@@ -242,10 +242,10 @@ def shards(tier):
 
 
 BOUNDS = {
-    'quick': dict(requests='K = 2 between loop callbacks; K = 1 issued from inside a listener notification (running/waiting/paused/played, occurrence 0..2)',
+    'quick': dict(requests='K = 2 between loop callbacks; K = 1 issued from inside a listener notification (running/waiting/paused/played) or an ENTERING_STATE/EXITING_STATE callback during the transition at the end of a step (occurrence 0..2)',
                   actions=[sched.ACT_NAMES[a] for a in ACTS], positions=f'gaps 0..{NPOS} + after termination', programs='P0..P10',
                   data='resume values int, kill/pause texts str len <= 2'),
-    'thorough': dict(requests='K = 2 in gaps (all programs); K = 2 with each request in a gap or in a listener notification (P1 P2 P3 P8 P10); K = 3 in gaps (P1 P2 P3)',
+    'thorough': dict(requests='K = 2 in gaps (all programs); K = 2 with each request in a gap, a listener notification or a state-event callback (P2 P3 P8 P10); K = 3 in gaps (P1 P2 P3)',
                      actions=[sched.ACT_NAMES[a] for a in ACTS], positions=f'gaps 0..{NPOS}', programs='P0..P10', data='int, str len <= 2 (<= 1 for K = 3)'),
 }
 OUTSIDE = ['hooks that raise (C03)', 'more than K requests', 'communicator-borne requests (C16)']
@@ -253,7 +253,8 @@ RULE = ('paths over (program, K requests with position/listener placement, actio
         'applied to the live process and the process terminated, so that the full outcome table was evaluated')
 SOLVER_ROLE = 'selector role for placement/action (exhaustive pruned case split + exhaustion verdict); data role for resume values and kill texts (result()/killed_msg() compared symbolically)'
 EXPLANATION = 'agreement of state, future, result(), successful(), killed_msg(), exception(), listener notification, cleanups, closedness and stepping-task release in every reachable terminal configuration'
-ASSUMPTIONS = ['environment policy at idle ticks: play a paused process, resume a waiting one / complete its awaited future']
+ASSUMPTIONS = ['environment policy at idle ticks: play a paused process, resume a waiting one / complete its awaited future',
+               'requests from ENTERING_STATE/EXITING_STATE callbacks are issued only during transitions performed by step(); the future is not sampled in the middle of the transition into a terminal state']
 REQUIRED_WITNESSES = ['kill_while_paused', 'kill_during_step', 'kill_from_listener', 'fail_request_live', 'ended_killed', 'ended_excepted', 'ended_finished']
 LEVEL_TEXT = ('bounded exhaustive symbolic exploration of control-request schedules (incl. kill while paused, during a step and from a '
               'listener); at termination all outcome views must agree, exactly one terminal notification, cleanups once, closed, stepping task released, and the future is never resolved while live')
